@@ -201,8 +201,12 @@ func checkPass(run *kit.Run, c cfg, oc optCache, suffix string) {
 			run.Violate("handle|"+id, fmt.Sprintf("Handle failed: %v", err), c)
 			return
 		}
+		// the routes are static, end in a parameter, or hold an infix catch-all (whose node keeps route copies of its own)
+		variant := (len(c.Globals) + len(c.RouteMws) + len(c.Updated)) % 3
+		pat := func(i int) string { return fmt.Sprintf([]string{"/r%d", "/r%d/*{x}/end", "/r%d/{p}"}[variant], i) }
+		pth := func(i int) string { return fmt.Sprintf([]string{"/r%d", "/r%d/a/b/end", "/r%d/v"}[variant], i) }
 		for i, ids := range c.RouteMws {
-			rte, err := f.Handle("GET", fmt.Sprintf("/r%d", i), handler, slash(routeOpts(ids))...)
+			rte, err := f.Handle("GET", pat(i), handler, slash(routeOpts(ids))...)
 			if err != nil {
 				run.Violate("handle|"+id, fmt.Sprintf("Handle failed: %v", err), c)
 				return
@@ -211,7 +215,7 @@ func checkPass(run *kit.Run, c cfg, oc optCache, suffix string) {
 		}
 		mwsOf := func(i int) []int { return c.RouteMws[i] }
 		if c.Updated != nil && len(routes) > 0 {
-			rte, err := f.Update("GET", "/r0", handler, slash(routeOpts(c.Updated))...)
+			rte, err := f.Update("GET", pat(0), handler, slash(routeOpts(c.Updated))...)
 			if err != nil {
 				run.Violate("update|"+id, fmt.Sprintf("Update failed: %v", err), c)
 				return
@@ -235,7 +239,7 @@ func checkPass(run *kit.Run, c cfg, oc optCache, suffix string) {
 			return *t
 		}
 		for i := range routes {
-			got, want := serve("GET", fmt.Sprintf("/r%d", i)), expected(c, fox.RouteHandler, mwsOf(i))
+			got, want := serve("GET", pth(i)), expected(c, fox.RouteHandler, mwsOf(i))
 			run.Case(id+fmt.Sprintf("|route%d", i), nonTrivial || len(mwsOf(i)) > 0)
 			if !same(got, want) {
 				fail(fmt.Sprintf("route /r%d", i), got, want)
@@ -268,11 +272,11 @@ func checkPass(run *kit.Run, c cfg, oc optCache, suffix string) {
 				case "noroute":
 					got = serve("GET", "/nope")
 				case "nomethod":
-					got = serve("PUT", "/r0")
+					got = serve("PUT", pth(0))
 				case "redirect":
-					got = serve("GET", "/r0/")
+					got = serve("GET", pth(0)+"/")
 				case "options":
-					got = serve("OPTIONS", "/r0")
+					got = serve("OPTIONS", pth(0))
 				}
 				want := expected(c, k.scope, nil)
 				run.Case(id+"|"+k.name, nonTrivial)
@@ -422,6 +426,43 @@ func concurrent(run *kit.Run) {
 		}
 		close(start)
 		wg.Wait()
+		// first use of every fresh route from several goroutines at once: Route.HandleMiddleware (route-specific chain
+		// only), Route.Handle (bare handler) and a request through the router
+		var uses sync.WaitGroup
+		go2 := make(chan struct{})
+		for g := 0; g < G; g++ {
+			if routes[g] == nil {
+				continue
+			}
+			own := []int{1000 + g}
+			if g%2 == 1 {
+				own = append(own, 2000+g)
+			}
+			for k := 0; k < 3; k++ {
+				uses.Add(1)
+				go func(g, k int, own []int) {
+					defer uses.Done()
+					<-go2
+					r, t := request("GET", fmt.Sprintf("/c%d", g))
+					_, tc := fox.NewTestContext(&nullW{http.Header{}}, r)
+					var want []int
+					what := ""
+					switch k {
+					case 0, 1:
+						routes[g].HandleMiddleware(tc)
+						want, what = append(append([]int(nil), own...), handlerID), "Route.HandleMiddleware"
+					default:
+						routes[g].Handle(tc)
+						want, what = []int{handlerID}, "Route.Handle"
+					}
+					if !same(*t, want) {
+						run.Violate("concurrent-first-use|"+what, fmt.Sprintf("%s of route /c%d, used for the first time by several goroutines at once, ran chain %v, expected %v", what, g, *t, want), map[string]int{"route": g})
+					}
+				}(g, k, own)
+			}
+		}
+		close(go2)
+		uses.Wait()
 		for g := 0; g < G; g++ {
 			own := []int{1000 + g}
 			if g%2 == 1 {
